@@ -792,7 +792,8 @@ def log_level_key_roundtrip(via_sink: bool, li: int, ki: int, has_sid: bool) -> 
 
 # ---------------------------------------------------------------------------
 # (c) HTTP producer turns: logs emitted through ctx or through the collector, on any produce()
-#     call of any turn, reach the client once, in order, before the batch they precede
+#     call of any turn (including a tick that finishes without emitting data), reach the client
+#     once, in order, before the batch they precede
 # ---------------------------------------------------------------------------
 # The real _run_http_producer_turn (several produce() calls may share one HTTP turn, depending on
 # max_response_bytes), real pyarrow; the step script, the log route of every step and the cap are
@@ -806,26 +807,34 @@ from typing import Protocol  # noqa: E402
 from vgi_rpc.rpc import ProducerState, Stream  # noqa: E402
 from vgi_rpc.rpc._common import _EMPTY_SCHEMA, AuthContext  # noqa: E402
 
-_P: dict = {"script": (0, 0, 0), "n": 0, "i": 0}
+_P: dict = {"script": (0, 0, 0), "n": 0, "i": 0, "fr": 0}
 _ROUTE_NONE, _ROUTE_CTX, _ROUTE_OUT = 0, 1, 2
 _CAPS = (None, 1, 1_000_000)  # one produce() per turn (no cap / tiny cap) or all of them in one turn
 
 
+def _emit_log(route: int, i: int, out, ctx) -> None:  # type: ignore[no-untyped-def]
+    if route == _ROUTE_CTX:
+        ctx.client_log(Level.INFO, "m-%d" % i)
+    elif route == _ROUTE_OUT:
+        out.client_log(Level.INFO, "m-%d" % i)
+
+
 @dataclass
 class _LoggingProducer(ProducerState):
+    """Step k: log route k % 3, then k // 3 = emit | emit + finish | finish without data.
+    After the script: a finishing tick without data that logs through route ``fr``."""
+
     def produce(self, out, ctx) -> None:  # type: ignore[no-untyped-def]
         i = _P["i"]
         _P["i"] = i + 1
         if i >= _P["n"]:
+            _emit_log(_P["fr"], i, out, ctx)
             out.finish()
             return
         k = _P["script"][i]
-        route = k % 3
-        if route == _ROUTE_CTX:
-            ctx.client_log(Level.INFO, "m-%d" % i)
-        elif route == _ROUTE_OUT:
-            out.client_log(Level.INFO, "m-%d" % i)
-        out.emit(_BATCHES[i])
+        _emit_log(k % 3, i, out, ctx)
+        if k < 6:
+            out.emit(_BATCHES[i])
         if k >= 3:
             out.finish()
 
@@ -862,20 +871,24 @@ def _stub_mint_cursor(*a, **k):  # type: ignore[no-untyped-def]
 _producer_turn_rg = reglobalize(aps._run_http_producer_turn, _mint_cursor_token=_stub_mint_cursor)
 
 
-def _expected_sequence(n: int, script: tuple) -> list:
+def _expected_sequence(n: int, script: tuple, fr: int) -> list:
     want: list = []
     for i in range(n):
         k = script[i]
         if k % 3 != _ROUTE_NONE:
             want.append(("log", "m-%d" % i))
-        want.append(("data", i))
+        if k < 6:
+            want.append(("data", i))
         if k >= 3:
-            break
+            return want
+    if fr != _ROUTE_NONE:
+        want.append(("log", "m-%d" % n))  # emitted in the finishing tick, after the last batch
     return want
 
 
-def _drive_producer_turns(cap, n: int, script: tuple):  # type: ignore[no-untyped-def]
+def _drive_producer_turns(cap, n: int, script: tuple, fr: int):  # type: ignore[no-untyped-def]
     _P["script"] = script
+    _P["fr"] = fr
     _P["n"] = n
     _P["i"] = 0
     app = _TurnApp(cap)
@@ -924,42 +937,44 @@ def _replay_http_producer(args: dict) -> str | None:
 
     P, Impl = _LogProto, _LogImpl
     script = (args["s0"], args["s1"], args["s2"])
-    _P.update(script=script, n=args["n"], i=0)
+    _P.update(script=script, n=args["n"], i=0, fr=args["fr"])
     seen: list = []
     client = make_sync_client(RpcServer(P, Impl(), server_id="srv"), token_key=b"k" * 32, max_response_bytes=_CAPS[args["cap"]])
     with http_connect(P, client=client, on_log=lambda m: seen.append(("log", m.message))) as proxy:
         for ab in proxy.gen():
             seen.append(("data", ab.batch.column(0)[0].as_py() - 100))
-    want = _expected_sequence(args["n"], script)
+    want = _expected_sequence(args["n"], script, args["fr"])
     # the session pre-loads a whole turn, so callbacks may run ahead of the yields: compare what the
     # property states (each log once, in order, before the batch it precedes; data in order)
     ok = [x for x in seen if x[0] == "log"] == [x for x in want if x[0] == "log"] and [x for x in seen if x[0] == "data"] == [x for x in want if x[0] == "data"]
     if ok:
         for j, item in enumerate(want):
-            if item[0] == "log" and seen.index(item) > seen.index(want[j + 1]):
+            if item[0] == "log" and j + 1 < len(want) and seen.index(item) > seen.index(want[j + 1]):
                 ok = False
     if not ok:
         return "HTTP producer (max_response_bytes=%r) emitted %r; the client saw %r" % (_CAPS[args["cap"]], want, seen)
     return None
 
 
-@cond(q=60, t=240, encoded=[aps._run_http_producer_turn, ty.OutputCollector.emit_client_log_message, wire._flush_collector, wire._dispatch_log_or_error],
+@cond(q=150, t=400, encoded=[aps._run_http_producer_turn, ty.OutputCollector.emit_client_log_message, wire._flush_collector, wire._dispatch_log_or_error],
       stubs=["_mint_cursor_token := opaque token that opens to the same state (ideal AEAD)", "_HttpRpcApp := object with the attributes the turn reads"],
       replay=_replay_http_producer, signature=lambda a, c: "C08:http-producer:log-lost-or-reordered",
-      bound="producer scripts of <= 3 steps, each step logging through ctx / through the collector / not at all and emitting, optionally finishing; max_response_bytes in {None, 1, 1e6} (one produce() per HTTP turn, or all in one turn)")
-def http_producer_logs_delivered(cap: int, n: int, s0: int, s1: int, s2: int) -> bool:
+      bound="producer scripts of <= 3 steps, each step logging through ctx / through the collector / not at all, then emitting | emitting and finishing | finishing without data; "
+            "a script that did not finish ends with a finishing tick without data that logs through either route or not at all; "
+            "max_response_bytes in {None, 1, 1e6} (one produce() per HTTP turn, or all in one turn)")
+def http_producer_logs_delivered(cap: int, n: int, s0: int, s1: int, s2: int, fr: int) -> bool:
     """
-    pre: 0 <= cap <= 2 and 0 <= n <= 3
-    pre: 0 <= s0 <= 5 and 0 <= s1 <= 5 and 0 <= s2 <= 5
+    pre: 0 <= cap <= 2 and 0 <= n <= 3 and 0 <= fr <= 2
+    pre: 0 <= s0 <= 8 and 0 <= s1 <= 8 and 0 <= s2 <= 8
     post: _
     """
     try:
-        seen = _drive_producer_turns(_CAPS[cap], n, (s0, s1, s2))
+        seen = _drive_producer_turns(_CAPS[cap], n, (s0, s1, s2), fr)
     except Exception:  # noqa: BLE001
         return False
     if seen is None:
         return False
-    want = _expected_sequence(n, (s0, s1, s2))
+    want = _expected_sequence(n, (s0, s1, s2), fr)
     if len(seen) != len(want):
         return False
     for j in range(len(want)):
